@@ -23,6 +23,8 @@ type C16Trans struct {
 	EventSeed int64    `json:"event_seed"`
 	Ops       []string `json:"mutations,omitempty"` // how B was derived from A (informational)
 	Exec      string   `json:"exec_mode,omitempty"` // "" | ipset | iptables: exec-backed runner for that tool
+	// HostOverride: the manager under test runs with --hostname-override=Node-A (pods carry node-a)
+	HostOverride bool `json:"hostname_override_upper_case,omitempty"`
 }
 
 func (t *C16Trans) clone() *C16Trans {
@@ -236,6 +238,7 @@ func genC16Trans(rng *rand.Rand, idx int, o genOpts) *C16Trans {
 	case 3:
 		t.Exec = "iptables"
 	}
+	t.HostOverride = (k/(16*len(c16Mutations)))%8 == 1
 	return t
 }
 
@@ -306,7 +309,7 @@ func setKind(name string) string {
 // explainStale finds which part of the installed state, replaced by what a fresh manager installs, makes the verdict
 // right: hooks, pod chains, policy chains or a set.
 func batchConsequence(sig string) bool {
-	for _, k := range []string{"missing-pod-hook", "stale-pod-hook-of-same-pod", "stale-pod-chain-body", "stale-policy-chain-body",
+	for _, k := range []string{"missing-pod-hook", "missing-jump-from-built-in-chain", "stale-pod-hook-of-same-pod", "stale-pod-chain-body", "stale-policy-chain-body",
 		"stale-chains-"} {
 		if strings.Contains(sig, k) {
 			return true
@@ -327,6 +330,10 @@ func explainStale(t, f *ruleset, skip map[string]bool, pkt Packet, want bool, di
 	// components of the installed state that can be replaced by what a fresh manager installs
 	apply := func(h *ruleset, comp string) {
 		switch comp {
+		case "base-jumps":
+			for _, b := range []string{"FORWARD", "INPUT", "OUTPUT"} {
+				h.chains[b] = f.chains[b]
+			}
 		case "hooks":
 			h.chains["GLX-INGRESS"], h.chains["GLX-EGRESS"] = f.chains["GLX-INGRESS"], f.chains["GLX-EGRESS"]
 		case "pod-chains", "policy-chains":
@@ -356,6 +363,8 @@ func explainStale(t, f *ruleset, skip map[string]bool, pkt Packet, want bool, di
 	// signature of one component
 	name := func(comp string) (string, string) {
 		switch comp {
+		case "base-jumps":
+			return "c16-missing-jump-from-built-in-chain", "FORWARD/INPUT/OUTPUT do not jump to GLX-INGRESS/GLX-EGRESS as a fresh manager makes them"
 		case "hooks":
 			th, fh := hooksFor(t, base, flag, local), hooksFor(f, base, flag, local)
 			inF, inT := map[string]bool{}, map[string]bool{}
@@ -466,7 +475,9 @@ func explainStale(t, f *ruleset, skip map[string]bool, pkt Packet, want bool, di
 	}
 	sort.Strings(setNames)
 	// one component alone
-	for _, comp := range append([]string{"hooks", "pod-chains", "policy-chains"}, setNames...) {
+	// the jumps from the built-in chains come last: removing them (when a fresh manager has none) "repairs" every
+	// drop caused by something stale below them
+	for _, comp := range append(append([]string{"hooks", "pod-chains", "policy-chains"}, setNames...), "base-jumps") {
 		if repairs([]string{comp}) {
 			s, txt := name(comp)
 			return []string{s}, txt
@@ -474,7 +485,7 @@ func explainStale(t, f *ruleset, skip map[string]bool, pkt Packet, want bool, di
 	}
 	// several components: reduce the full replacement to a set in which every component is necessary and report each
 	// under its own signature (a combination is nothing new if each of its necessary parts is a known shape)
-	all := append(append([]string{}, setNames...), "policy-chains", "pod-chains", "hooks")
+	all := append(append([]string{}, setNames...), "policy-chains", "pod-chains", "hooks", "base-jumps")
 	if !repairs(all) {
 		desc := "stale-state " + effect + " " + dir + " not repaired by replacing all galaxy chains and sets"
 		return []string{"unclassified-" + shapeHash(desc)}, desc
@@ -508,7 +519,7 @@ func evalC16T(tc *C16Trans) *c16Result {
 	w := newWorld()
 	model := tc.A.clone()
 	w.load(model)
-	e := newEnvMode(w, tc.Exec)
+	e := newEnvFull(w, tc.Exec, tc.HostOverride)
 	if pi := e.fullSync(); pi != nil {
 		res.addViol("c16-full-sync-panic-in-"+pi.Func, "full sync panicked: "+pi.Value, pi)
 		return res
@@ -552,6 +563,7 @@ func evalC16T(tc *C16Trans) *c16Result {
 					res.counters["single_mutation_pod-add_first_event_has_ip"]++
 				}
 			}
+			e.enter()
 			if pi := deliver(); pi != nil {
 				res.addViol("c16-panic-in-"+pi.Func+"-in-"+hname+"-handler", fmt.Sprintf("event %d (%s) panicked: %s", i, ev.Kind, pi.Value), pi)
 			}
@@ -586,6 +598,9 @@ func evalC16T(tc *C16Trans) *c16Result {
 	}
 	if u := e.execReport(res.counters); u != "" {
 		res.inconclusive = "exec interpreter met an unknown command: " + u
+	}
+	if tc.HostOverride {
+		res.counters["cases_with_upper_case_hostname_override"]++
 	}
 	return res
 }
